@@ -212,8 +212,8 @@ def bits(p):
 
 # ---------------------------------------------------------------- argument forms
 
-FORMS_1D = ["array", "vars", "neg", "and", "or", "mixed-array", "const", "mixed-list", "tuple"]
-FORMS_2D = ["array", "neg", "and", "or", "mixed"]
+FORMS_1D = ["array", "vars", "neg", "and", "or", "mixed-array", "const", "mixed-list", "tuple", "gen-array", "map-array"]
+FORMS_2D = ["array", "neg", "and", "or", "mixed", "iter2d", "rows-gen"]
 BAD_1D = ["short", "int", "intexpr", "none", "as2d"]
 
 
@@ -245,6 +245,11 @@ def make_arg_1d(s, n, form, rng, want_array=False):
         l = [s.bool_var() | ~s.bool_var() for _ in range(n)]
         return l, "S", l
     pool = [s.bool_var() for _ in range(n + 1)]
+    if form in ("gen-array", "map-array"):
+        # arrays built from one-shot iterables (generator, map over a reversed iterator)
+        l = [some_expr(s, pool, rng) for _ in range(n)]
+        a = BoolArray1D(x for x in l) if form == "gen-array" else BoolArray1D(map(lambda x: x, iter(l)))
+        return a, "1", l
     if form == "mixed-array":
         l = [some_expr(s, pool, rng) for _ in range(n)]
         return BoolArray1D(l), "1", l
@@ -285,6 +290,13 @@ def make_arg_2d(s, h, w, form, rng):
         a = s.bool_array((h, w)) & s.bool_array((h, w))
     elif form == "or":
         a = s.bool_array((h, w)) | ~s.bool_array((h, w))
+    elif form == "iter2d":
+        # flat one-shot iterator + a shape whose ints are created at run time
+        l = [s.bool_var() for _ in range(h * w)]
+        a = BoolArray2D(iter(l), (int(str(h)), int(str(w))))
+    elif form == "rows-gen" and h >= 1 and w >= 1:
+        l = [s.bool_var() for _ in range(h * w)]
+        a = BoolArray2D((~x for x in l[y * w:(y + 1) * w]) for y in range(h))
     else:
         pool = [s.bool_var() for _ in range(h * w + 1)]
         a = BoolArray2D([some_expr(s, pool, rng) for _ in range(h * w)], (h, w))
@@ -302,14 +314,21 @@ def pre_state(s, style):
         s.add_answer_key(a)
 
 
-def run_impl(helper, s, arg, g, prim):
+def run_impl(helper, s, arg, g, prim, kw="pos"):
+    """kw: how the arguments are passed -- positionally, graph= by keyword (explicitly None on the grid route),
+    or everything by keyword"""
     from cspuz import graph as G
     from cspuz.configuration import config
     old = config.use_graph_primitive
     config.use_graph_primitive = prim
     try:
         f = G.active_vertices_not_adjacent if helper == "NA" else G.active_vertices_not_adjacent_and_not_segmenting
-        r = vlib.guarded(f, s, arg) if g is None else vlib.guarded(f, s, arg, g)
+        if kw == "all-kw":
+            r = vlib.guarded(f, solver=s, is_active=arg, graph=g)
+        elif kw == "graph-kw":
+            r = vlib.guarded(f, s, arg, graph=g)
+        else:
+            r = vlib.guarded(f, s, arg) if g is None else vlib.guarded(f, s, arg, g)
     finally:
         config.use_graph_primitive = old
     st = exprio.show_state(s)
@@ -341,17 +360,44 @@ def add_case(ctx, reqs, metas, helper, gspec, form, style, prim, two_d=None, wro
     else:
         arg, tag, trees = make_arg_1d(s, gspec[0] if gspec else ctx.rng.randrange(1, 5), form, ctx.rng,
                                       want_array=(helper == "NS" and gspec is not None and ctx.rng.random() < 0.85))
-    g = graphcap.mk_graph(gspec[0], gspec[1]) if gspec is not None else None
+    rng = ctx.rng
+    history = "once"
+    if gspec is None:
+        g = None
+    elif gspec[1] and rng.random() < 0.12:
+        # history: the Graph object was already used by an earlier call (other solver) and extended afterwards
+        history = "graph-extended-after-earlier-call"
+        k = rng.randrange(len(gspec[1]))
+        g = graphcap.mk_graph(gspec[0], gspec[1][:k])
+        s0 = Solver()
+        run_impl(helper, s0, s0.bool_array(gspec[0]), g, prim)
+        for (a, b) in gspec[1][k:]:
+            g.add_edge(int(str(a)), int(str(b)))
+    else:
+        g = graphcap.mk_graph(gspec[0], gspec[1])
     pre = exprio.show_state(s)
     try:
         atok = exprio.show_list(trees)
     except TypeError:
         return
     gtok = "N" if gspec is None else "G " + graphcap.graph_tok(gspec[0], gspec[1])
-    impl = run_impl(helper, s, arg, g, prim)
+    kw = rng.choice(VAR_KW) if rng.random() < 0.4 else "pos"
+    ctx.count("h:corr-kw:" + kw)
+    before = snapshot(arg, g)
+    impl = run_impl(helper, s, arg, g, prim, kw)
     head = "NA" if helper == "NA" else "NS %d" % (1 if prim else 0)
+    gkey = gspec if gspec is None else (gspec[0], tuple(gspec[1]))
     reqs.append("%s %s %s %s %s" % (head, gtok, tag, atok, pre))
-    metas.append((helper, gspec if gspec is None else (gspec[0], tuple(gspec[1])), two_d, form, style, prim, atok, impl))
+    metas.append((helper, gkey, two_d, form, style, prim, atok, impl))
+    if impl[0] == "ok" and rng.random() < 0.15:
+        # history: the same call once more on the same Solver / is_active / Graph objects; the model continues
+        # from the state the first call left
+        history += "+second-call"
+        impl2 = run_impl(helper, s, arg, g, prim, kw)
+        reqs.append("%s %s %s %s %s" % (head, gtok, tag, atok, impl[1]))
+        metas.append((helper, gkey, two_d, form + "/second-call", style, prim, atok, impl2))
+    ctx.count("h:corr-history:" + history)
+    ctx.corr("arguments-unchanged", (helper, gkey, two_d, form, atok, history), True, same_snapshot(before, snapshot(arg, g)))
 
 
 def shuffled(rng, edges):
@@ -415,6 +461,22 @@ def correspond(ctx):
             ctx.count("wrong-route")
             add_case(ctx, reqs, metas, helper, (n, es), "array", rng.randrange(3), False, two_d=(h, w))
             add_case(ctx, reqs, metas, helper, None, rng.choice(["array", "vars", "const", "tuple"]), rng.randrange(3), False)
+    # class 2 / 5: vertex numbers, cell counts and rank bounds outside CPython's small-int cache (> 256), ints
+    # created at run time; boards whose posted program is compared but not solved
+    big_shapes = [(3, 180), (23, 23), (7, 7), (9, 9), (2, 150), (1, 300), (300, 1)]
+    for (h, w) in big_shapes if ctx.thorough else rng.sample(big_shapes[:2], 1) + rng.sample(big_shapes[2:], 2):
+        for helper in ("NA", "NS"):
+            ctx.count("h:corr-big-shape:%dx%d" % (h, w))
+            add_case(ctx, reqs, metas, helper, None, rng.choice(["array", "iter2d", "neg"]), rng.randrange(3),
+                     helper == "NS" and h * w > 200 and (h == 1 or w == 1), two_d=(h, w))
+    for nbig in ([300, 600] if ctx.thorough else [300]):
+        path = [(int(str(i)), int(str(i + 1))) if i % 3 else (int(str(i + 1)), int(str(i))) for i in range(nbig - 1)]
+        path += [(int(str(nbig - 1)), int(str(nbig - 1))), (int(str(nbig - 1)), int(str(0)))]
+        ctx.count("h:corr-big-graph:%d" % nbig)
+        add_case(ctx, reqs, metas, "NA", (nbig, path), "array", 1, False)
+        add_case(ctx, reqs, metas, "NA", (nbig, path), "vars", 0, False)
+        add_case(ctx, reqs, metas, "NS", (nbig, path), "array", 2, True)
+        add_case(ctx, reqs, metas, "NS", (nbig, path), "neg", 0, False)
     outs = m.batch(reqs)
     for meta, o in zip(metas, outs):
         helper, gspec, two_d, form, style, prim, atok, impl = meta
